@@ -71,6 +71,10 @@ class ReorderCoverage(ReorderRule):
     def apply(self, font: ttLib.TTFont, value: otBase.BaseTable) -> None:
         coverage = _get_dotted_attr(value, self.coverage_attr)
 
+        if coverage is None:
+            # An optional Coverage table that is absent (NULL offset).
+            return
+
         if type(coverage) is not list:
             # Normal path, process one coverage that might have a parallel list
             parallel_list = None
